@@ -86,6 +86,23 @@ func roundTripX(c Case, exclude bool) (outcome, error) {
 		}
 		return outcome{status: status, p: p}, err
 	}
+	// every third program also unformatted: the raw rendering is the same program (and, through the shared
+	// render helper, the same bytes whichever way the File hands them out)
+	hs := 0
+	for i := 0; i < len(c.Src) && i < 4096; i++ {
+		hs = hs*131 + int(c.Src[i])
+	}
+	if hs%3 == 0 {
+		twin := p.Recipe.Clone()
+		twin.Ops = append(twin.Ops, recipe.FileOp{Op: "NoFormat"})
+		raw, rerr := rtpkg.Render(&recipe.Builder{}, twin)
+		if rerr != nil {
+			return outcome{status: status, p: p}, fmt.Errorf("the NoFormat render of a valid program fails: %s", rtpkg.Short(rerr.Error(), 1200))
+		}
+		if err := rtpkg.Compare(p.AST, raw); err != nil {
+			return outcome{status: status, p: p}, fmt.Errorf("unformatted (NoFormat): %v", err)
+		}
+	}
 	// the documented alternative elements: Tag(map) for conventional struct tags, Values(Dict) for keyed
 	// composite literals whose keys are already in rendering order, Int() / Error() / Nil() ... for
 	// predeclared names, Append(...) / Len(x) / Make(...) ... for calls of built-in functions
